@@ -62,6 +62,38 @@ func dnStringKinds(raw []byte) string {
 	return strings.Join(out, "+")
 }
 
+// dnText renders a DN as attribute types and value text, ignoring the string type of each value.
+func dnText(raw []byte) string {
+	top, _, err := readTLV(raw)
+	if err != nil {
+		return "?"
+	}
+	rdns, err := readAll(top.Content)
+	if err != nil {
+		return "?"
+	}
+	var sb strings.Builder
+	for _, set := range rdns {
+		atvs, _ := readAll(set.Content)
+		sb.WriteString("{")
+		for _, atv := range atvs {
+			p, _ := readAll(atv.Content)
+			if len(p) != 2 {
+				return "?"
+			}
+			oid, _ := derOID(p[0])
+			switch p[1].Tag {
+			case 0x13, 0x0c, 0x16, 0x14:
+				sb.WriteString(oid + "=" + string(p[1].Content) + ";")
+			default:
+				sb.WriteString(fmt.Sprintf("%s=#%x;", oid, p[1].Raw))
+			}
+		}
+		sb.WriteString("}")
+	}
+	return sb.String()
+}
+
 func extHashRequested(x ExtSpec) bool {
 	if x.Raw != "" {
 		return false
@@ -146,7 +178,13 @@ func (w *World) CheckChains(o ChainOpts) []ChainProblem {
 			}
 		}
 		if !bytes.Equal(a.Cert.IssuerRaw, issuerCert.SubjectRaw) {
-			add("issuer-dn-bytes:"+issuerKind+":"+dnStringKinds(issuerCert.SubjectRaw),
+			// same attribute types and the same text, only the ASN.1 string types differ: that is the
+			// re-encoding defect (known finding under foreign issuers); anything else is a different name
+			clause := "issuer-dn-bytes:"
+			if dnText(a.Cert.IssuerRaw) == dnText(issuerCert.SubjectRaw) && dnText(a.Cert.IssuerRaw) != "?" {
+				clause = "issuer-dn-reencoded:"
+			}
+			add(clause+issuerKind+":"+dnStringKinds(issuerCert.SubjectRaw),
 				"%s: issuer DN %x differs from issuer certificate subject DN %x", e.ID, a.Cert.IssuerRaw, issuerCert.SubjectRaw)
 		}
 		if o.CheckKeyIDs && a.Pem.HasHash { // only certificates gopki itself produced
